@@ -512,7 +512,8 @@ MHK = {k: z3.Real(f"mu_h_margin{k}") for k in range(3)}
 
 class CopulaInitialisation(FunctionContract):
     """MarkovChainLevyCopula.initialisation (d = 2, 3): per margin k, process drift = margin model drift + a_k + first moment
-    of margin k outside the cut-off radius - mu_h of margin k computed on axis k with origin index k."""
+    of margin k outside the cut-off radius OF MARGIN k's OWN variation regime - mu_h of margin k computed on axis k with
+    origin index k (the margins' regimes are independent symbolic flags: mixed copulas included)."""
     prop = "C04"
     target = "rpylib.process.markovchain.markovchainlevycopula:MarkovChainLevyCopula.initialisation"
     cases = (2, 3)
@@ -540,20 +541,21 @@ class CopulaInitialisation(FunctionContract):
             e = lambda x: Sym(NEG_INF, "r") if (not is_sym(x) and x == -INF) else (Sym(POS_INF, "r") if (not is_sym(x) and x == INF) else x)
             return Sym(MUK[k](as_real_term(lift(e(b["a"]))), as_real_term(lift(e(b["b"])))), "r")
         interp.hooks[LM + "LevyMeasure.integrate_against_x"] = int_x
-        interp.hooks["rpylib.model.levycopulamodel:LevyCopulaModel.jump_of_finite_variation"] = lambda it, f, b: ctx.PATH.ghost["fv"]
+        interp.hooks["rpylib.model.levycopulamodel:LevyCopulaModel.jump_of_finite_variation"] = lambda it, f, b: And(*ctx.PATH.ghost["fvk"])
+        interp.hooks[LM + "LevyModel.jump_of_finite_variation"] = lambda it, f, b: ctx.PATH.ghost["fvk"][next(i for i, m in enumerate(ctx.PATH.ghost["models"]) if m is b["self"])]
         interp.hooks[LM + "LevyModel.drift"] = lambda it, f, b: ctx.PATH.ghost["D"][next(i for i, m in enumerate(ctx.PATH.ghost["models"]) if m is b["self"])]
 
     def setup(self, vc, d):
         grid, ax, h, o = wf_grid(vc, d=d)
         axes = [vc.seq(f"axis{k}", "r", min_len=3) for k in range(d)]
         grid.fields["axes"] = axes
-        fv = vc.bool("finite_variation")
+        fvk = [vc.bool(f"margin{k}_finite_variation") for k in range(d)]      # every margin has its OWN variation regime
         a, D = vc.reals("a", d), vc.reals("model_drift", d)
         nus = [mu_measure(vc) for _ in range(d)]
         models = [vc.obj(LM + "LevyModel", levy_triplet=vc.obj(LM + "LevyTriplet", a=a[k], nu=nus[k])) for k in range(d)]
         cm = vc.obj("rpylib.model.levycopulamodel:LevyCopulaModel", models=models)
         proc = vc.obj("rpylib.process.markovchain.markovchainlevycopula:MarkovChainLevyCopula", model=cm, grid=grid)
-        vc.ghost.update(fv=fv, D=D, a=a, nus=nus, models=models, axes=axes, o=o, grid=grid, d=d)
+        vc.ghost.update(fvk=fvk, D=D, a=a, nus=nus, models=models, axes=axes, o=o, grid=grid, d=d)
         PD = "rpylib.product.payoff:PayoffDates"
         product = vc.obj("rpylib.product.product:Product", payoff=vc.obj("rpylib.product.payoff:Payoff", payoff_dates_type=vc.enum(PD, "DETERMINISTIC")))
         return dict(self=proc, product=product)
@@ -561,7 +563,7 @@ class CopulaInitialisation(FunctionContract):
     def ensures(self, result, self_=None, **kw):
         from pyvc import ctx
         g = ctx.PATH.ghost
-        fv, D, a, d = g["fv"], g["D"], g["a"], g["d"]
+        fvk, D, a, d = g["fvk"], g["D"], g["a"], g["d"]
         drift = self_.fields["_process_drift"]
         out = {"column-vector-of-d-drifts": isinstance(drift, np.ndarray) and drift.shape == (d, 1)}
         if not out["column-vector-of-d-drifts"]:
@@ -569,7 +571,8 @@ class CopulaInitialisation(FunctionContract):
         ninf, pinf = NEG_INF, POS_INF
         for k in range(d):
             F = lambda x, y: Sym(MUK[k](as_real_term(lift(x)), as_real_term(lift(y))), "r")
-            comp = If(fv, F(Sym(ninf, "r"), 0) + F(0, Sym(pinf, "r")), F(Sym(ninf, "r"), -1) + F(1, Sym(pinf, "r")))
+            # the radius of margin k's OWN regime (the one its TILDE drift was built with), not a copula-wide one
+            comp = If(fvk[k], F(Sym(ninf, "r"), 0) + F(0, Sym(pinf, "r")), F(Sym(ninf, "r"), -1) + F(1, Sym(pinf, "r")))
             out[f"margin{k}:drift-compensates-its-own-margin"] = drift[k, 0] == D[k] + a[k] + comp - Sym(MHK[k], "r")
         return out
 
@@ -844,8 +847,8 @@ class CopulaVariationFlag(FunctionContract):
 
 class CopulaMarginMean(Lemma):
     """property statement for one margin of a copula chain, from the two contracts above: the constructor compensates margin
-    k's drift with the cut-off radius of ITS OWN variation regime, initialisation adds the first moment outside the radius
-    of the COPULA-WIDE regime (finite variation iff every margin is); the chain keeps the margin's mean iff the two agree."""
+    k's drift with the cut-off radius of ITS OWN variation regime, and initialisation adds the first moment outside that same
+    radius (since the repair; it used the copula-wide regime before): the chain keeps the margin's mean in every mix."""
     prop = "C04"
     name = "property:copula-margin-mean"
 
@@ -856,7 +859,7 @@ class CopulaMarginMean(Lemma):
         vc.assume(And(ninf < -1, pinf > 1))
         for x, y, z in ((ninf, -1, 0), (0, 1, pinf), (-1, 0, 1)):
             vc.assume(additivity(x, y, z, F=MU1))
-        comp = If(fv_all, MU1(ninf, 0) + MU1(0, pinf), MU1(ninf, -1) + MU1(1, pinf))     # contract of CopulaInitialisation
+        comp = If(fv_k, MU1(ninf, 0) + MU1(0, pinf), MU1(ninf, -1) + MU1(1, pinf))       # contract of CopulaInitialisation (margin's own radius)
         mean = spec_mean("TILDE", a, fv_k)                                               # contract of CopulaChainConstructor
         vc.check(self.name + "::same-variation-regime", Implies(fv_k == fv_all, a + comp == mean))
         vc.check(self.name + "::mixed-variation-regimes", Implies(fv_k != fv_all, a + comp == mean))
